@@ -13,6 +13,7 @@
 #define XSIMD_AVX2_HPP
 
 #include <complex>
+#include <limits>
 #include <type_traits>
 
 #include "../types/xsimd_avx2_register.hpp"
@@ -374,12 +375,29 @@ namespace xsimd
         }
 
         // gather
+        namespace detail
+        {
+            // The gather instructions sign-extend 32-bit indices.  Indices of an unsigned type are therefore rebased: the top bit
+            // of every index is flipped (i.e. 2^31 is subtracted) and the base address is advanced by 2^31 elements instead, so
+            // that indices >= 2^31 address src[index] and not src[index - 2^32].
+            template <class U, size_t ElementSize, class P>
+            XSIMD_INLINE P const* rebase_gather_pointer(P const* src) noexcept
+            {
+                return std::is_unsigned<U>::value ? reinterpret_cast<P const*>(reinterpret_cast<uintptr_t>(src) + (static_cast<uintptr_t>(ElementSize) << 31)) : src;
+            }
+            template <class U>
+            XSIMD_INLINE __m256i rebase_gather_index(__m256i index) noexcept
+            {
+                return std::is_unsigned<U>::value ? _mm256_xor_si256(index, _mm256_set1_epi32(std::numeric_limits<int32_t>::min())) : index;
+            }
+        }
+
         template <class T, class A, class U, detail::enable_sized_integral_t<T, 4> = 0, detail::enable_sized_integral_t<U, 4> = 0>
         XSIMD_INLINE batch<T, A> gather(batch<T, A> const&, T const* src, batch<U, A> const& index,
                                         kernel::requires_arch<avx2>) noexcept
         {
             // scatter for this one is AVX512F+AVX512VL
-            return _mm256_i32gather_epi32(reinterpret_cast<const int*>(src), index, sizeof(T));
+            return _mm256_i32gather_epi32(detail::rebase_gather_pointer<U, sizeof(T)>(reinterpret_cast<const int*>(src)), detail::rebase_gather_index<U>(index), sizeof(T));
         }
 
         template <class T, class A, class U, detail::enable_sized_integral_t<T, 8> = 0, detail::enable_sized_integral_t<U, 8> = 0>
@@ -397,7 +415,7 @@ namespace xsimd
                                             kernel::requires_arch<avx2>) noexcept
         {
             // scatter for this one is AVX512F+AVX512VL
-            return _mm256_i32gather_ps(src, index, sizeof(float));
+            return _mm256_i32gather_ps(detail::rebase_gather_pointer<U, sizeof(float)>(src), detail::rebase_gather_index<U>(index), sizeof(float));
         }
 
         template <class A, class U, detail::enable_sized_integral_t<U, 8> = 0>
@@ -415,8 +433,10 @@ namespace xsimd
                                             batch<V, A> const& index,
                                             requires_arch<avx2>) noexcept
         {
-            const batch<double, A> low(_mm256_i32gather_pd(src, _mm256_castsi256_si128(index.data), sizeof(double)));
-            const batch<double, A> high(_mm256_i32gather_pd(src, _mm256_extractf128_si256(index.data, 1), sizeof(double)));
+            const double* base = detail::rebase_gather_pointer<V, sizeof(double)>(src);
+            const __m256i idx = detail::rebase_gather_index<V>(index.data);
+            const batch<double, A> low(_mm256_i32gather_pd(base, _mm256_castsi256_si128(idx), sizeof(double)));
+            const batch<double, A> high(_mm256_i32gather_pd(base, _mm256_extractf128_si256(idx, 1), sizeof(double)));
             return detail::merge_sse(_mm256_cvtpd_ps(low.data), _mm256_cvtpd_ps(high.data));
         }
 
@@ -425,8 +445,10 @@ namespace xsimd
                                               batch<V, A> const& index,
                                               requires_arch<avx2>) noexcept
         {
-            const batch<double, A> low(_mm256_i32gather_pd(src, _mm256_castsi256_si128(index.data), sizeof(double)));
-            const batch<double, A> high(_mm256_i32gather_pd(src, _mm256_extractf128_si256(index.data, 1), sizeof(double)));
+            const double* base = detail::rebase_gather_pointer<V, sizeof(double)>(src);
+            const __m256i idx = detail::rebase_gather_index<V>(index.data);
+            const batch<double, A> low(_mm256_i32gather_pd(base, _mm256_castsi256_si128(idx), sizeof(double)));
+            const batch<double, A> high(_mm256_i32gather_pd(base, _mm256_extractf128_si256(idx, 1), sizeof(double)));
             return detail::merge_sse(_mm256_cvttpd_epi32(low.data), _mm256_cvttpd_epi32(high.data));
         }
 
